@@ -797,6 +797,66 @@ def replay_epath(model, obligation):
     return dict(confirmed=False)
 
 
+
+
+# ---- status.produce / typed_data.produce ------------------------------------------------------------------
+def status_data(eng, name, st):
+    st = st.clone()
+    rid, xid = eng.new_id(), eng.new_id()
+    exts = SeqV(z3.Const('_g_exts', IntSeq), 'list')
+    st.heap[(xid, 'size')] = (z3.Bool('_g_has_size'), IntV(z3.Int('_g_size')))
+    st.heap[(xid, 'data')] = (z3.Bool('_g_has_data'), exts)
+    st.heap[(xid, '__closed__')] = True
+    st.heap[(xid, '__keys__')] = ('size', 'data')
+    st.heap[(rid, 'status')] = (z3.Bool('_g_has_status'), IntV(z3.Int('_g_status')))
+    st.heap[(rid, 'status_ext')] = (z3.Bool('_g_has_ext'), RefV(xid, 'rec'))
+    st.heap[(rid, '__closed__')] = True
+    st.heap[(rid, '__keys__')] = ('status', 'status_ext')
+    for k in ('_g_size', '_g_status'):
+        eng.init_vals[k] = IntV(z3.Int(k))
+    for k in ('_g_has_size', '_g_has_data', '_g_has_status', '_g_has_ext'):
+        eng.init_vals[k] = BoolV(z3.Bool(k))
+    eng.init_vals['_g_exts'] = exts
+    return RefV(rid, 'rec'), st
+
+
+def status_spec():
+    defs = dict(ST='_g_status if _g_has_status else 0',
+                EXT='_g_exts if (ST != 0 and _g_has_ext and _g_has_data) else _g_exts[:0]',
+                SZ='_g_size if (ST != 0 and _g_has_ext and _g_has_size) else 0')
+    return Spec('status.produce', (P, 'status.produce'), params={'data': status_data}, defs=defs,
+                requires='0 <= _g_status <= 255 and forall(0, len(_g_exts), lambda j: 0 <= _g_exts[j] <= 0xffff) and len(_g_exts) <= 255',
+                ensures=[('layout: status, number of extended status words, each word little-endian',
+                          'result[:2] == u8(ST) + u8(len(EXT)) and len(result) == 2 + 2 * len(EXT) and '
+                          'forall(0, len(EXT), lambda j: result[2 + 2 * j: 4 + 2 * j] == u16(EXT[j]))')],
+                raises={'AssertionError': 'SZ != len(EXT)'}, refuses=[('inconsistent-size', 'SZ != len(EXT)')], accepts=[('consistent', 'SZ == len(EXT)')],
+                modifies=[], inline=['produce'], hints=dict(funcs=WS.FUNCS),
+                note='extended status only for a non-zero status; size must equal the number of words')
+
+
+def typed_data_specs():
+    out = []
+    for cls, n, signed, big in SCALARS[:8]:
+        tt = {'USINT': 0xc6, 'SINT': 0xc2, 'UINT': 0xc7, 'INT': 0xc3, 'UDINT': 0xc8, 'DINT': 0xc4, 'ULINT': 0xc9, 'LINT': 0xc5}[cls]
+        lo, hi = (-(1 << (8 * n - 1)), (1 << (8 * n - 1)) - 1) if signed else (0, (1 << (8 * n)) - 1)
+        schema = {'type': ('const', tt), 'data': ('ints', '_g_data')}
+
+        def producer(eng, st, cls=cls):
+            from pyvc.vals import FuncV
+            ch = eng.repo.find_class(cls, prefer=eng.mod)
+            c, m = ch.find_method('produce')
+            return FuncV('%s.produce' % cls, ('classfn', ch, c, m))
+        out.append(Spec('typed_data.produce[%s]' % cls, (P, 'typed_data.produce'), params={'data': rec_param(schema)},
+                        env={'cls.TYPES_SUPPORTED[tag_type].produce': producer, 'tag_type in cls.TYPES_SUPPORTED': 'True'},
+                        ensures=[('layout: the elements in order, each %d bytes little-endian' % n,
+                                  'len(result) == %d * len(_g_data) and forall(0, len(_g_data), lambda j: result[%d * j: %d * j + %d] == le(_g_data[j], %d))' % (n, n, n, n, n))],
+                        raises={'struct.error': 'not forall(0, len(_g_data), lambda j: %d <= _g_data[j] <= %d)' % (lo, hi)},
+                        accepts=[('all-in-range', 'forall(0, len(_g_data), lambda j: %d <= _g_data[j] <= %d)' % (lo, hi))],
+                        modifies=[], inline=['produce'], hints=dict(funcs=WS.FUNCS),
+                        note='TYPES_SUPPORTED[%#x] modelled as class %s (the table itself is exercised in the bounded tier)' % (tt, cls)))
+    return out
+
+
 def contracts(repo):
     return (scalar_specs() + string_specs() + [enip_encode_spec()] + logix_produce_specs() + unconnected_send_specs() + connection_specs()
-            + epath_specs())
+            + epath_specs() + [status_spec()] + typed_data_specs())
